@@ -1460,7 +1460,213 @@ def c20(tier):
                       assumptions=["OS schedules are sampled, call-granularity interleavings are exhaustive for the short scripts"])
 
 
-CHECKS = {"C20": c20, "C10": c10, "C04": c04, "C15": c15, "C16": c16, "C09": c09, "C19": c19, "C03": c03, "C13": c13, "C14": c14, "C01": c01, "C02": c02, "C12": c12, "C17": c17}
+def summarise_writer_run(seg, sc, k):
+    """one fault run of a writer program -> FRun event (outcome = entries, metadata, contents, comment; no offsets)"""
+    panic = any(e.get("r") == "panic" or e.get("rc") == "panic" or e.get("rraw") == "panic" for e in seg)
+    ops = 0
+    faulted = None
+    for e in seg:
+        if e.get("ev") == "SinkOps":
+            ops = e.get("ops", 0)
+            faulted = e.get("faulted")
+            panic = panic or bool(e.get("drop_panic"))
+    calls = [e for e in seg if e.get("ev") in ("New", "NewAppend", "SetComment", "StartFile", "StartFileExtra", "StartFileAligned", "Write",
+                                               "WriteExtra", "EndExtra", "EndLocalStartCentral", "AddDir", "AddSymlink", "RawCopy", "Flush", "Finish", "Drop")]
+    anyerr = any(e.get("r") == "err" for e in calls)
+    # a fault inside Drop cannot be reported through the API ("may silently fail", documented): it counts as reported
+    if faulted:
+        prev = 0
+        for e in calls:
+            if e.get("ev") == "Drop" and prev <= faulted[0] < e.get("ops", 0):
+                anyerr = True
+            prev = e.get("ops", prev)
+    # the last archive observed
+    last_open = max([i for i, e in enumerate(seg) if e.get("ev") == "Open"], default=None)
+    finished = False
+    outcome = "none"
+    if last_open is not None and seg[last_open].get("r") == "ok":
+        # only if it follows the last Finish/Drop call of the run
+        last_fin = max([i for i, e in enumerate(seg) if e.get("ev") in ("Finish", "Drop")], default=-1)
+        if last_open > last_fin >= 0:
+            ents = [e for e in seg[last_open:] if e.get("ev") == "Entry"]
+            desc = [seg[last_open].get("n"), (seg[last_open].get("comment") or {}).get("id")]
+            for e in ents:
+                desc.append([e.get("r"), (e.get("name") or {}).get("id"), e.get("method"), e.get("usize"), e.get("crc"), e.get("mode"),
+                             e.get("date"), e.get("time"), e.get("rc"), e.get("content"), e.get("extra")])
+            outcome = vlib.digest(desc)
+            finished = True
+    first_err = next((e.get("ev") + ": " + str(e.get("msg")) for e in calls if e.get("r") in ("err", "panic")), "")
+    return {"ev": "FRun", "sc": sc, "side": "writer", "k": k, "calls": len(calls), "anyerr": anyerr, "panic": panic, "first_err": first_err,
+            "ops": ops, "faulted": faulted, "outcome": outcome, "finished": finished}
+
+
+def c11(tier):
+    import refzip
+    rep = Report("C11", tier)
+    wd = vlib.workdir("C11", tier)
+    vlib.build_harness()
+    r = vlib.tlc_mc("Faults.tla", "MC_Faults.cfg", wd, timeout=300, tag="mc-faults")
+    rep.add_mc(r, "MC_Faults.cfg")
+    if r["error"]:
+        rep.spec_violation(r, "MC_Faults.cfg")
+    for bug, inv in (("swallow", "FaultLaw"), ("panic_later", "NoPanicEver")):
+        r = vlib.tlc_mc("Faults.tla", "MC_Faults_%s.cfg" % bug, wd, timeout=300, tag="mc-" + bug)
+        found = bool(r["error"]) and inv in r["error"]
+        rep.neg_controls.append({"spec_mutant": bug, "expected_violation": inv, "found": found})
+        if not found:
+            raise ToolTrouble("spec mutant %s not detected" % bug)
+    sd = vlib.seed()
+    rnd = random.Random(sd * 5003 + 11)
+    g = gen_writer.Gen(sd * 29 + 11, tier)
+    fb, fv = foreign_sources(rnd)
+    # ---- writer scenarios: the sink of the main writer fails at operation k
+    body1 = [{"op": "SetComment", "c": "faulty"},
+             {"op": "StartFile", "name": "a.txt", "method": 8}, {"op": "Write", "data": {"len": 900, "seed": 1, "kind": "text"}},
+             {"op": "StartFile", "name": "b.bin", "method": 0, "large": True}, {"op": "Write", "data": {"len": 70, "seed": 2, "kind": "rand"}},
+             {"op": "AddDir", "name": "d", "method": 0}, {"op": "AddSymlink", "name": "l", "target": "a.txt", "method": 0},
+             {"op": "StartFileAligned", "name": "al", "method": 0, "align": 64}, {"op": "Write", "data": "aligned"},
+             {"op": "StartFileExtra", "name": "x", "method": 12}, {"op": "WriteExtra", "recs": [{"id": 0xbeef, "dsz": 6}]},
+             {"op": "EndLocalStartCentral"}, {"op": "WriteExtra", "recs": [{"id": 0xcafe, "dsz": 3}]}, {"op": "EndExtra"},
+             {"op": "Write", "data": {"len": 300, "seed": 3, "kind": "text"}},
+             {"op": "StartFile", "name": "enc", "method": 8, "enc": "pw"}, {"op": "Write", "data": {"len": 100, "seed": 4, "kind": "text"}},
+             {"op": "StartFile", "name": "z", "method": 93}, {"op": "Write", "data": {"len": 400, "seed": 5, "kind": "text"}, "split": 50},
+             {"op": "Flush"}, {"op": "Finish"}]
+    progs = [("mixed", [], {"op": "New"}, body1 + [{"op": "Write", "data": "after finish"}]),
+             ("mixed-drop", [], {"op": "New"}, body1[:-1] + [{"op": "Drop"}]),
+             ("rawcopy", [{"op": "Load", "hex": fb.hex()}], {"op": "New"},
+              [{"op": "RawCopy", "arch": 0, "idx": 2, "rename": None}, {"op": "StartFile", "name": "mid", "method": 8}, {"op": "Write", "data": "middle"},
+               {"op": "RawCopy", "arch": 0, "idx": 0, "rename": "renamed"}, {"op": "Write", "data": "after raw"}, {"op": "Finish"}]),
+             ("append", [{"op": "New"}, {"op": "StartFile", "name": "base1", "method": 8}, {"op": "Write", "data": {"len": 500, "seed": 9, "kind": "text"}},
+                         {"op": "StartFile", "name": "base2", "method": 0}, {"op": "Write", "data": "stored base"}, {"op": "Finish"}],
+              {"op": "NewAppend", "arch": 0},
+              [{"op": "StartFile", "name": "appended", "method": 8}, {"op": "Write", "data": {"len": 200, "seed": 8, "kind": "text"}},
+               {"op": "AddDir", "name": "newdir", "method": 0}, {"op": "Finish"}]),
+             ("append-foreign", [{"op": "Load", "hex": fb.hex()}], {"op": "NewAppend", "arch": 0},
+              [{"op": "StartFile", "name": "appended", "method": 0}, {"op": "Write", "data": "x"}, {"op": "Finish"}])]
+    nrand = 2 if tier == "quick" else 40
+    for i in range(nrand):
+        s = g.valid_archive("x", nmax=5, enc_ok=True, end=rnd.choice(["Finish", "Drop"]))
+        progs.append(("rand%d" % i, [], {"op": "New"}, s["ops"][1:]))
+    # baselines -> operation counts
+    base_scs = [{"sc": "%s#base" % name, "ops": pre + [start] + body} for name, pre, start, body in progs]
+    pfile, tfile = os.path.join(wd, "wbase-programs.ndjson"), os.path.join(wd, "wbase-trace.ndjson")
+    vlib.write_ndjson(pfile, base_scs)
+    vlib.run_harness(["wexec", pfile, tfile])
+    evs = vlib.read_ndjson(tfile)
+    fruns = []
+    faults = []
+    opcount = {}
+    for name, pre, start, body in progs:
+        seg = [e for e in evs if e.get("sc") == "%s#base" % name]
+        b = summarise_writer_run(seg, name, -1)
+        fruns.append([{"ev": "Reset", "sc": name}, b])
+        opcount[name] = b["ops"]
+        ks = list(range(b["ops"]))
+        if tier == "quick" and len(ks) > 160:
+            ks = sorted(rnd.sample(ks, 160))
+        for k in ks:
+            faults.append({"sc": "%s#%d" % (name, k), "ops": pre + [dict(start, fault_at=k)] + body, "_name": name, "_k": k})
+    rep.notes["writer_ops_per_scenario"] = opcount
+    pfile, tfile = os.path.join(wd, "wfault-programs.ndjson"), os.path.join(wd, "wfault-trace.ndjson")
+    vlib.write_ndjson(pfile, [{k: v for k, v in s.items() if not k.startswith("_")} for s in faults])
+    vlib.run_harness(["wexec", pfile, tfile])
+    segs = {}
+    for e in vlib.read_ndjson(tfile):
+        segs.setdefault(e.get("sc"), []).append(e)
+    by_name = {}
+    for s in faults:
+        fr = summarise_writer_run(segs.get(s["sc"], []), s["_name"], s["_k"])
+        by_name.setdefault(s["_name"], []).append(fr)
+    # ---- reader scenarios: the source fails at operation k (open + read-all; streaming with partial reads)
+    rseeds = read_seeds(rnd)
+    z64, _ = refzip.build({"entries": [{"name": b"z1", "method": 8, "data": b"zip64 " * 40, "z64": {"usize", "csize", "off"}, "lz64": True},
+                                        {"name": b"z2", "method": 0, "data": b"second"}], "z64end": True, "prefix": b"junk-prefix"})
+    rscs = []
+    for name, b, v, pws in rseeds:
+        epw = [pws[0].hex() if e["enc"] is not None else None for e in v["entries"]]
+        rscs.append({"sc": "r-" + name, "hex": b.hex(), "via": "seek", "epw": epw})
+        if name == "plain":
+            rscs.append({"sc": "r-plain-stream", "hex": b.hex(), "via": "stream", "epw": []})
+    rscs.append({"sc": "r-zip64", "hex": z64.hex(), "via": "seek", "epw": []})
+    # a source that returns short reads: releasing a partly read entry then has real draining to do
+    pb = next(b for n, b, v, p in rseeds if n == "plain")
+    rscs.append({"sc": "r-plain-stream-short", "hex": pb.hex(), "via": "stream", "epw": [], "under": {"max": 5}})
+    rscs.append({"sc": "r-plain-short", "hex": pb.hex(), "via": "seek", "epw": [], "under": {"max": 7}})
+    # an archive whose last entry is itself a (stored) archive: a second complete end record lies inside the search window
+    inner, _ = refzip.build({"entries": [{"name": b"inner-a", "method": 0, "data": b"inner data a"}, {"name": b"inner-b", "method": 0, "data": b"bb"}]})
+    nested, _ = refzip.build({"entries": [{"name": b"outer.txt", "method": 8, "data": b"outer " * 20}, {"name": b"nested.zip", "method": 0, "data": inner}]})
+    rscs.append({"sc": "r-nested", "hex": nested.hex(), "via": "seek", "epw": []})
+    for s in rscs:
+        s["faults"] = [None]
+    pfile, tfile = os.path.join(wd, "rbase.ndjson"), os.path.join(wd, "rbase-trace.ndjson")
+    vlib.write_ndjson(pfile, rscs)
+    vlib.run_harness(["fexec", pfile, tfile])
+    rbase = {e["sc"]: e for e in vlib.read_ndjson(tfile)}
+    for s in rscs:
+        ks = list(range(rbase[s["sc"]]["ops"]))
+        if tier == "quick" and len(ks) > 250:
+            ks = sorted(rnd.sample(ks, 250))
+        s["faults"] = ks
+        opcount[s["sc"]] = rbase[s["sc"]]["ops"]
+    pfile, tfile = os.path.join(wd, "rfault.ndjson"), os.path.join(wd, "rfault-trace.ndjson")
+    vlib.write_ndjson(pfile, rscs)
+    vlib.run_harness(["fexec", pfile, tfile])
+    rruns = {}
+    for e in vlib.read_ndjson(tfile):
+        rruns.setdefault(e["sc"], []).append(e)
+    # ---- one trace for TLC: per scenario Reset, base run, fault runs
+    allev = []
+    nruns = 0
+    for (hdr) in fruns:
+        name = hdr[0]["sc"]
+        allev += hdr + by_name.get(name, [])
+        nruns += len(by_name.get(name, []))
+    for s in rscs:
+        allev += [{"ev": "Reset", "sc": s["sc"]}, rbase[s["sc"]]] + rruns.get(s["sc"], [])
+        nruns += len(rruns.get(s["sc"], []))
+    trace = os.path.join(wd, "faults-trace.ndjson")
+    for e in allev:            # (TLC's JSON reader has no null)
+        for kk in list(e):
+            if e[kk] is None:
+                e[kk] = []
+    vlib.write_ndjson(trace, allev)
+    res = vlib.validate_segments("Trace_Fault.tla", "Trace_Fault.cfg", trace, wd, tag="faults", max_rejections=8)
+    scen = {name: {"sc": name, "ops": pre + [start] + body} for name, pre, start, body in progs}
+    scen.update({s["sc"]: {"sc": s["sc"], "hex": s["hex"], "via": s["via"]} for s in rscs})
+    rep.add_tv(res, scen, "faults")
+    rep.evaluations += nruns
+    for e in allev:
+        if e.get("ev") == "FRun":
+            rep.distinct.add((e["sc"], e["k"]))
+    stats = rep.notes.setdefault("run_outcomes", {})
+    for e in allev:
+        if e.get("ev") == "FRun" and e["k"] >= 0:
+            key = "%s:%s" % (e["side"], "panic" if e["panic"] else ("error-reported" if e["anyerr"] else "identical-result"))
+            stats[key] = stats.get(key, 0) + 1
+    rep.samples.append({"fault_run": {k: allev[2][k] for k in ("sc", "k", "anyerr", "panic", "first_err", "finished")}})
+    rep.notes["exhaustive_per_scenario"] = (tier == "thorough")
+    # negative control: a swallowed error must be rejected
+    seg = allev[:3]
+    def mutate(es):
+        es[2]["anyerr"] = False
+        es[2]["finished"] = False
+        es[1]["anyerr"] = False
+        return "fault run presented as 'no error reported, result differs'"
+    nc = vlib.corrupt_and_expect_reject("Trace_Fault.tla", "Trace_Fault.cfg", seg, wd, mutate, tag="faults-neg")
+    rep.neg_controls.append(nc)
+    if not nc["rejected"]:
+        raise ToolTrouble("negative control did not fire")
+    return rep.finish("fault_enumeration",
+                      "for each scenario (writer: all entry kinds/methods/extra data/aligned/encrypted, finish and drop, raw copy, append onto own and "
+                      "foreign bases, random programs; reader: open + read-all of plain/ZipCrypto/AE-1/AE-2/ZIP64+prefix archives, streaming with partial "
+                      "reads) the I/O operations of the failure-free run are counted and the run is repeated with a hard error injected at operation k "
+                      "(quick: up to 160-250 sampled k per scenario; thorough: every k), continuing with the remaining calls, finish and drop; each "
+                      "run is one event judged by Faults!Law (no panic; an error was reported or the entries/metadata/contents equal the failure-free "
+                      "run); distinct = (scenario, k) pairs",
+                      assumptions=["single fault per run", "result comparison is on entries, metadata, contents and comment, not on offsets"])
+
+
+CHECKS = {"C11": c11, "C20": c20, "C10": c10, "C04": c04, "C15": c15, "C16": c16, "C09": c09, "C19": c19, "C03": c03, "C13": c13, "C14": c14, "C01": c01, "C02": c02, "C12": c12, "C17": c17}
 
 
 def setup():
